@@ -365,6 +365,23 @@ def handle (d : DState) (line : String) : Except String (DState × String) := do
               | "periodic" => pure SolverKind.periodic | "semi" => pure SolverKind.semi | _ => throw s!"unknown kind {ks}"
             let c : SolverCfg := { problemOk := b "problemok", gamma := ← q "gamma" "1/2", eps := ← q "eps" "1/1000", maxbs := ← i "maxbs" "64", f := ← i "f" "0", m := ← i "m" "1", verbose := ← i "verbose" "0", testOk := b "testok", period := ← i "period" "2", budget := ← i "budget" "100" }
             pure (d, fE (outcome k c Route.kwargs) ++ s!" thr={fRat (thresholdOf k c)}")
+    | "verbosity" => do
+        -- `verbosity_to_loguru_level` (int=…, or nonint=1) and `Solver.set_verbosity` (set=int:<n> | set=name:<s>)
+        let fN : List Char → String := fun l => String.ofList l
+        match a.find? (fun kv => kv.1 = "set") with
+        | some (_, v) =>
+          let lvl : Except String (List Char ⊕ Int) :=
+            if v.startsWith "int:" then (pInt (v.drop 4).toString).map Sum.inr else pure (Sum.inl (v.drop 5).toString.toList)
+          match setVerbosity (← lvl) with
+          | .ok (n, nm) => pure (d, s!"ok verbose={n} level={fN nm}")
+          | .error .typeError => pure (d, "error=TypeError")
+          | .error .valueError => pure (d, "error=ValueError")
+        | none =>
+          let isInt := argD a "nonint" "0" ≠ "1"
+          match loguruLevel isInt (← pInt (argD a "int" "0")) with
+          | .ok nm => pure (d, s!"ok level={fN nm}")
+          | .error .typeError => pure (d, "error=TypeError")
+          | .error .valueError => pure (d, "error=ValueError")
     | "qrow" => do
         let p ← getP d (← arg a "id")
         let γ ← pRat (← arg a "gamma"); let V ← pList pRat (← arg a "V"); let s ← pNat (← arg a "s")
